@@ -3,6 +3,7 @@ _COMMON = [
     'gcc 12 / x86-64 LP64 little-endian; library rebuilt from /repo working tree with -fsanitize=address,undefined',
 ]
 SPEC = dict(
+    lsan=True,
     harness=['h_list.c'],
     level='exploration',
     memcheck_cases={'thorough': 1600},
@@ -18,6 +19,28 @@ SPEC = dict(
          'member incl. sentinels; slist tail == last node; queue count, fore/back/at(+-i) for every i, payload bytes, fixed element addresses, '
          'and "a pushed node is not the address of an enqueued element". distinct_nontrivial = distinct (family, operation, emptiness class of the '
          'operands, position class) combinations judged (large cases: family, operation, position/length class, floor(log2 size)). '
+         'SURFACE (every public entry point and macro form of list.h, slist.h, que.h; table at the head of the SURFACE section of h_list.c): after '
+         'every 4th operation of a history and at its end each container is walked through every iteration form - a_list_foreach_next/_prev/_, '
+         'a_list_forsafe_next/_prev/_, their upper-case forms (iterator a_list * and a_list const *), a_slist_foreach/forsafe and A_SLIST_FOREACH/'
+         'FORSAFE, a_que_foreach/a_que_foreach_reverse (T S) and A_QUE_FOREACH/A_QUE_FOREACH_REVERSE (T) with T in {unsigned char, uint64_t const '
+         'through an a_que const *, 24-byte struct} - and must yield exactly the model sequence (addresses, contents of sizeof(T) bytes, count, '
+         'order); a_list_entry/_next/_prev, a_slist_entry/_next, a_list_(_, x), a_slist_(_, x) on every member; A_QUE_FORE/BACK/FORE_/BACK_/AT(T, ..) '
+         'against the model. At the end of every list/slist history 8-12 (3-5) passes through a forsafe form chosen at random unlink the current '
+         'node inside the body at the visits of a random mask (all, random, sparse, first+last) - a_list_del_node(it) resp. a_slist_del(ctx, at) + '
+         'it = null - and the model, ring walk and tail clause must hold. Two hand-built structures per history on an enclosing struct whose link '
+         'member is not its first member: A_LIST_INIT / A_SLIST_INIT / A_SLIST_NODE initialisers, ctor/init/dtor on blocks whose links point '
+         'elsewhere, ring from a_list_link + a_list_loop, a_list_add_ / a_list_del_ (+ a_list_loop closing the detached section) / a_list_set_ with '
+         'hand-linked chains, head re-seated by link+loop, slist built/edited by a_slist_link only and then handed to a_slist_rot/del_head/add_tail. '
+         'In the queue histories a random half of push_back/push_fore/pull_back/pull_fore/insert/remove/push_sort goes through A_QUE_*(T, ..) '
+         '(T in {unsigned char, unsigned char const, uint64_t}); same model update and clauses, key suffixed with the form. '
+         'Re-use after destruction: a_list_ctor/init/dtor on a USED head (history end and hand-built ring) and a_slist_ctor/init/dtor on a USED list, '
+         'then nodes are added again through add_next/add_prev resp. add/add_head/add_tail and walk + tail are judged; in the queue histories '
+         'a_que_dtor + a_que_ctor on the same (re-poisoned) storage resp. a_que_die + a_que_new with another element size, followed by the rest of '
+         'the history. Every destructor-taking call runs under the destructor accounting (see assumptions). Empty and one-element queues: on a random '
+         'half of the cases on the freshly constructed queues and at the end of every history after draining by pulls (all nodes pooled) '
+         'sort_fore, sort_back, at(0, +-1, +-2, PTRDIFF_MAX/MIN), fore, back, pull_fore, pull_back, remove(0/1/SIZE_MAX), drop with/without destructor, '
+         'push_sort (below/equal/above the only element), push_fore/push_back/insert(0/1/SIZE_MAX) are each called on the empty and on the '
+         'one-element queue and followed by the complete state comparison (keys suffixed empty-queue / one-element-queue). '
          'LARGE cases (one case in 41 quick / 1201 thorough, families in rotation): (L-a) a list.h ring grown node by node to N nodes (each its own malloc '
          'block), complete forward+backward walk against an id-sequence model at every n with |n-2^k|<=2 and at N, then 30-59 structural operations at '
          'that size (del_ of a section of length 1/2/n/n-1/n/2/n/3/2^k+-1 followed by add_ of the detached chain into either ring, set_ with a chain '
@@ -53,12 +76,40 @@ SPEC = dict(
              'large-que-drop', 'large-que-setz', 'large-que-sorted-insert-position', 'large-que-sorted-inserts-judged', 'large-que-element-swap',
              'large-que-destroyed', 'large-que-cases-reaching-65537',
              'comparator-returns-minus-one-zero-plus-one', 'comparator-returns-key-difference', 'comparator-returns-int-min-int-max',
-             'comparator-returns-varying-magnitudes'],
+             'comparator-returns-varying-magnitudes',
+             # SURFACE: one counter per public form; a form that silently stops being exercised fails the run
+             'form/a_list_ctor', 'form/a_list_init', 'form/a_list_dtor', 'form/a_list_link', 'form/a_list_loop', 'form/a_list_add_',
+             'form/a_list_del_', 'form/a_list_set_', 'form/A_LIST_INIT', 'form/a_list_', 'form/a_list_entry', 'form/a_list_entry_next',
+             'form/a_list_entry_prev', 'form/a_list_foreach_', 'form/a_list_foreach_next', 'form/a_list_foreach_prev', 'form/A_LIST_FOREACH_',
+             'form/A_LIST_FOREACH_NEXT', 'form/A_LIST_FOREACH_PREV', 'form/a_list_forsafe_', 'form/a_list_forsafe_next',
+             'form/a_list_forsafe_prev', 'form/A_LIST_FORSAFE_', 'form/A_LIST_FORSAFE_NEXT', 'form/A_LIST_FORSAFE_PREV',
+             'form-removal/a_list_forsafe_', 'form-removal/a_list_forsafe_next', 'form-removal/a_list_forsafe_prev',
+             'form-removal/A_LIST_FORSAFE_', 'form-removal/A_LIST_FORSAFE_NEXT', 'form-removal/A_LIST_FORSAFE_PREV',
+             'form/a_slist_ctor', 'form/a_slist_init', 'form/a_slist_dtor', 'form/a_slist_link', 'form/A_SLIST_INIT', 'form/A_SLIST_NODE',
+             'form/a_slist_', 'form/a_slist_entry', 'form/a_slist_entry_next', 'form/a_slist_foreach', 'form/A_SLIST_FOREACH',
+             'form/a_slist_forsafe', 'form/A_SLIST_FORSAFE', 'form-removal/a_slist_forsafe', 'form-removal/A_SLIST_FORSAFE',
+             'form/a_que_fore_', 'form/a_que_back_', 'form/A_QUE_FORE_', 'form/A_QUE_BACK_', 'form/A_QUE_FORE', 'form/A_QUE_BACK', 'form/A_QUE_AT',
+             'form/a_que_foreach', 'form/a_que_foreach_reverse', 'form/A_QUE_FOREACH', 'form/A_QUE_FOREACH_REVERSE',
+             'form/A_QUE_PUSH_BACK', 'form/A_QUE_PUSH_FORE', 'form/A_QUE_PULL_BACK', 'form/A_QUE_PULL_FORE', 'form/A_QUE_INSERT',
+             'form/A_QUE_REMOVE', 'form/A_QUE_PUSH_SORT',
+             'form-instantiation/unsigned-char', 'form-instantiation/uint64_t-const', 'form-instantiation/struct-of-24-bytes',
+             'list-used-head-reset-and-reused', 'slist-used-list-reset-and-reused', 'que-destroyed-and-constructed-again',
+             'que-destructor-calls-accounted', 'que-destructor-passed', 'que-destructor-calls-on-enqueued-elements',
+             'que-entry-points-on-empty-queue', 'que-entry-points-on-one-element-queue', 'que-comparator-receives-elements-only'],
     cov_files=['que.c'], cov_cases=600,
     assumptions=_COMMON + [
         'swap of adjacent nodes/sections is excluded (the property says so; the repository test expects it to be unsupported)',
         'del_next/del_prev are never asked to unlink a head sentinel; set_node is applied to enlisted nodes only; mov_* only with a non-empty source ring',
-        'destructor call counts of a_que_drop/a_que_dtor are not judged (the pool semantics of destructors is not part of the property)',
+        'element destructors (a_que_die/a_que_dtor/a_que_drop/a_que_setz, small cases): judged per API call - every enqueued element receives '
+        'exactly one call and still holds its bytes, no address receives two calls, any further call goes to a node of this queue\'s recycling '
+        'pool (never a foreign address), no call arrives when no destructor was passed; NOT judged: that pooled (already pulled) nodes do or do '
+        'not receive calls (the library calls the destructor on them too - counted as que-destructor-calls-on-pooled-nodes), the order of the '
+        'calls (none is documented), and that a node may see a destructor again in a later API call; large cases only count the calls',
+        'comparator (small cases): every pointer handed to it must be an enqueued element, the key given to a_que_push_sort or the element '
+        'pushed just before sort_fore/sort_back (the documentation calls its operands elements); the number and order of the calls are not judged',
+        'forsafe forms: the helper variable `at` is judged only through its documented use (a_slist_del(ctx, at) must unlink the current node; the '
+        'list forms must continue with the saved neighbour after the current node was unlinked and re-initialised); a_que_foreach* are documented '
+        'as iteration only, no element is removed inside them',
         'large cases: between checkpoints (n farther than 2 from every power of two) bulk fill/drain operations are judged only by their return '
         'value, the returned element (address + payload) and the hand-out clause; the complete comparison happens at the next checkpoint'],
     level_text='Lock-step sequence models with complete ring walks after every call over seeded histories on two containers at a time (so cross-container '
